@@ -123,11 +123,13 @@ Definition lm_same_upto_sign_b (N d : nat) (tol : Qc) (Y Z : list (list Qc)) : o
           (seq 0 d))
   else None.
 
-(* the triangulation clause on tables: every non-landmark row of EMB equals tri_spec_row computed
-   from the implementation's own landmark embedding YL, eigenvalues lam and mean vector mu;
-   every landmark row equals the corresponding row of YL.  tol = 0: exactly. *)
-Definition lm_triangulation_b (N d : nat) (tol : Qc) (lm : list nat) (Ldist : list (list Qc))
-           (mu : list Qc) (YL : list (list Qc)) (lam : list Qc) (EMB : list (list Qc)) : option bool :=
+(* the triangulation clause on tables: every non-landmark row of EMB equals, in each kept column,
+   tri_spec_row computed from the implementation's own landmark embedding YL, eigenvalues lam and
+   mean vector mu, and 0 in each dropped column (null eigenvalue, `keep` as in tri_divide); every
+   landmark row equals the corresponding row of YL.  tol = 0: exactly. *)
+Definition lm_triangulation_b (N d : nat) (tol : Qc) (keep : list bool) (lm : list nat)
+           (Ldist : list (list Qc)) (mu : list Qc) (YL : list (list Qc)) (lam : list Qc)
+           (EMB : list (list Qc)) : option bool :=
   let L := length lm in
   if wf_matb N N Ldist && wf_matb L d YL && wf_matb N d EMB && Nat.eqb (length mu) L
      && Nat.leb d (length lam) && landmarks_okb N L lm then
@@ -137,6 +139,7 @@ Definition lm_triangulation_b (N d : nat) (tol : Qc) (lm : list nat) (Ldist : li
                 forallb (fun c => lm_qleb (lm_qabs (mof EMB x c - mof YL i c)%Qc) tol) (seq 0 d)
             | None =>
                 let r := vtab d (tri_spec_row L lm (mof Ldist) (vof mu) (mof YL) (vof lam) x) in
-                forallb (fun c => lm_qleb (lm_qabs (mof EMB x c - vof r c)%Qc) tol) (seq 0 d)
+                forallb (fun c => lm_qleb (lm_qabs (mof EMB x c -
+                                     (if nth c keep true then vof r c else Q2Qc 0))%Qc) tol) (seq 0 d)
             end) (seq 0 N))
   else None.
